@@ -218,12 +218,10 @@ impl<'e, 'a> Host for Frame<'e, 'a> {
             return v;
         }
         let id = t.id.clone();
-        let mine = *t.id.creator == self.key;
-        let v = self.callee(QKey::OnTs(n, id)).v;
-        if mine {
-            self.ev.arena[*h].computed_first = true;
-        }
-        v
+        // the body value is now memoized for this key: a later `specify` in the same
+        // (creator) execution is ignored ("a value the creator already computed ... is kept")
+        self.ev.arena[*h].computed_first = true;
+        self.callee(QKey::OnTs(n, id)).v
     }
     fn specify(&mut self, h: &usize, v: u32) {
         if self.ev.prog.node_of_kind(Kind::Spec).is_none() {
@@ -234,13 +232,14 @@ impl<'e, 'a> Host for Frame<'e, 'a> {
             self.ev.abort.get_or_insert(Abort::SpecifyForeign);
             return;
         }
+        if t.computed_first {
+            return;
+        }
         if !self.specified.insert(*h) {
             self.ev.abort.get_or_insert(Abort::SpecifyTwice);
             return;
         }
-        if !t.computed_first {
-            t.spec = Some(v % self.ev.prog.m);
-        }
+        t.spec = Some(v % self.ev.prog.m);
     }
     fn intern(&mut self, t: usize, v: u32) -> (usize, u32) {
         self.tr().interned.push((t, v));
